@@ -204,7 +204,7 @@ func (i *Interp) fromGo(t types.Type, x reflect.Value) value {
 	// Already an interpreter value?
 	if x.IsValid() && x.CanInterface() {
 		switch v := x.Interface().(type) {
-		case structure, array, []value, *hashmap, *value, iface, *closure, *ir.Function:
+		case structure, array, *hashmap, *value, iface, *closure, *ir.Function:
 			return v
 		}
 	}
